@@ -5,6 +5,7 @@ from ..common import build, call, exc_text
 from ..runner import Rec, h64
 from . import c01
 
+CASE_TIMEOUT = 1500
 PROPERTY = "C03"
 LEVEL = "model_checking"
 RULE = ("case = generated plotfile (C01 universe incl. scattered / non-monotone layouts, non-finite payloads - NaN-free "
@@ -40,13 +41,39 @@ def cases(tier, seed):
             seen.add(k)
             nfiles = max(len(l["files"]) if l else 1 for l in d2["layout"])
             out.append({"desc": d2, "w": len(d2["levels"]) * (3 if nfiles > 1 else 1), "schedules": 2 <= nfiles <= 4})
+    out.append(scale_case(seed))
     return out
+
+
+def scale_case(seed):
+    """65 600 boxes of 2 x 2 x 2 cells on one level, in two binary files (more boxes than 2^16)"""
+    n = 65600
+    d = {"ndims": 3, "domain": [2 * n, 2, 2], "levels": [[[[2 * i, 0, 0], [2 * i + 1, 1, 1]] for i in range(n)]],
+         "fields": ["temp", "density"], "payload": "coded", "seed": seed, "origin": [0.0, 0.0, 0.0], "dx0": [0.25, 0.25, 0.25],
+         "layout": [{"files": [list(range(0, n, 2)), list(range(1, n, 2))], "nums": [1, 0]}]}
+    return {"desc": d, "w": 400, "scale": True}
 
 
 def run_case(case, workdir):
     from amr_kitchen.taste import Taster
     rec = Rec()
     desc = case["desc"]
+    if case.get("scale"):
+        path, ref = build(desc, workdir, prehistory=False, pathform="plain")
+        dh = h64(["scale", desc["seed"], len(desc["levels"][0])])
+        for (bh, bs) in ((True, True), (False, True)):
+            for nofail in (False, True):
+                sub = {"limit_level": None, "binary_headers": bh, "binary_shape": bs, "binary_data": False, "boxes_coordinates": False, "nofail": nofail,
+                       "boxes_on_level_0": len(desc["levels"][0])}
+                with vpool.controlled() as ctl:
+                    st, val = call(lambda: Taster(path, binary_headers=bh, binary_shape=bs, nofail=nofail, verbose=0))
+                rec.exe([dh, sub], nontrivial=True, trans=1 + sum(c["n"] for c in ctl.calls))
+                if st == "exc":
+                    rec.fail("raised", sub, exc_text(val))
+                elif not bool(val):
+                    rec.fail("rejected", sub, "bool(Taster) is False on a well-formed plotfile")
+        rec.sample({"scale": True, "boxes": len(desc["levels"][0])})
+        return rec.result()
     path, ref = build(desc, workdir)
     dh = h64(desc)
     # shallow-first or deep-first, depending on the case: process-lifetime state must not care which comes first
